@@ -279,7 +279,7 @@ LATER = {
            "client (family XN); two threads failing at once while the first handler invocation is still running (XT); sink "
            "errors whose payload is one of the crate's own MetricErrors.",
     "C06": "Also: the writer histories - fault histories included - driven through a StatsdClient over a user-written buffered "
-           "sink (family CW: send_metric(&Counter::from(text)), StatsdClient::flush).",
+           "sink (family CW: send_metric(&Counter::from(text)), StatsdClient::flush).  The clauses proved for every fault script (exactly once, order, own emit, a flush that returns Ok has written everything acknowledged before it, flushing again writes nothing) are evaluated on the fault histories of family CW too; metrics ending in LF or in the terminator's own bytes.",
     "C07": "Also: family CW (histories through StatsdClient) and family UR (the real UDP sinks over a socket connected to a "
            "closed port: ECONNREFUSED on every other send, then a listener appears) - every call must return.",
     "C10": "Also: the usize an accepted emit returns is the metric's byte length (non-ASCII payloads); the bound of large "
@@ -287,22 +287,30 @@ LATER = {
     "C11": "Also: unbroken runs of 17-70 panics; a panic soak of 28 000 panics over the life of one sink (own process).",
     "C13": "Also: statistics read in the middle of a history (op s: reading puts nothing on the wire), UDP sockets connected "
            "to a closed port (family UR); capacities above one IPv4 datagram (an emit that fits the configured capacity puts "
-           "nothing on the wire); Unix paths that cannot be socket addresses (family XL).",
+           "nothing on the wire); Unix paths that cannot be socket addresses (family XL).  Unix paths that are not valid UTF-8 with a second listener at the lossy name (families XN / BXN).",
     "C14": "Also: statistics read in the middle of a history equal the figures of the datagrams received so far; families UR "
            "and XL (sends refused before they reach the OS are dropped packets too).",
+    "C02": "Also: the value section of every standalone constructor's text against the canonical numeral; Display of every "
+           "MetricValue variant against join ':' (value_texts v) (wire family V).",
+    "C05": "Also: metrics ending in white space, LF or the writer's own (possibly multi-byte) terminator.",
+    "C08": "Also: wrapped sinks answering Ok(k) for arbitrary k (Rn<k>); family QD: scripted histories with ANOTHER queuing "
+           "sink alive in the process (full with its stop pending / respawned after a panic), which must deliver and be "
+           "released too.",
+    "C09": "Also: family QD (two queuing sinks in one process: the other one full with its stop marker pending for the whole "
+           "history).",
     "C15": "Also: soaks of 8-12 producers released together by a barrier (lost updates of a counter need overlapping increments).",
     "C16": "Also: a wrapped sink that answers Ok(0) (accepted: the handler stays silent); an unscripted flush of the wrapped "
            "sink answers with an error of its own (a worker that flushes shows up in the handler's record); failures that carry a "
-           "raw OS errno, the same one several times in a row.",
+           "raw OS errno, the same one several times in a row.  Wrapped sinks answering Ok(k) for arbitrary k (release outcome Rn<k>).",
     "C17": "Also: the holder's read functions get_global_default / is_global_default_set before, between and after the sets, on "
            "the calling and on fresh threads; a macro must not flush the sink.",
     "C18": "Also: programs that format the holder with {:?} under the scheduler (a trait impl is a fourth access path); the "
            "global holder through set_global_default / get_global_default / is_global_default_set in fresh processes; two "
-           "compile-fail witnesses for the bounds of the unsafe Send/Sync impls.",
+           "compile-fail witnesses for the bounds of the unsafe Send/Sync impls.  Every schedule the model enumerates for small programs also runs, each in a fresh child process, on the process-wide holder through the three free functions under the blocking tracer (family G).",
     "C19": "Also: the real buffered socket sinks with their statistics read while lines are buffered (reading is not an "
            "occasion to write).",
     "C20": "Also: Debug formatting (plain and pretty) of every sink and of the client; the writer's fault histories in both "
-           "build profiles.",
+           "build profiles.  Display of every MetricValue variant, empty packed lists included (wire family V).",
 }
 
 
